@@ -4,7 +4,7 @@
 set -u
 IDS=("$@"); [ ${#IDS[@]} -eq 0 ] && IDS=($(ls /verif/benign))
 WORK=/tmp/bmatrix; rm -rf $WORK; mkdir -p $WORK
-rsync -a --exclude .git --exclude replays --exclude evidence /verif/ $WORK/verif/; mkdir -p $WORK/verif/evidence $WORK/verif/replays
+mkdir -p $WORK/verif && git -C /verif archive HEAD | tar -x -C $WORK/verif   # the COMMITTED machinery (edits in progress must not leak into a matrix); mkdir -p $WORK/verif/evidence $WORK/verif/replays
 PROPS=$(python3 -c "import json;print(' '.join(c['property_id'] for c in json.load(open('/verif/MANIFEST.json'))['checks']))")
 source /verif/bin/env.sh
 for S in "${IDS[@]}"; do
